@@ -696,4 +696,708 @@ theorem run_inv {k k' : K} (ls : List Label) (h : Inv k) (hr : run k ls = some k
 theorem reachable_inv {n : Nat} {k : K} (ls : List Label) (hr : run (initK n) ls = some k) : Inv k :=
   run_inv ls (inv_init n) hr
 
+/-! ### what a label may change -/
+
+/-- what one API action may change (everything later theorems need to know about `act`) -/
+structure ActEff (k : K) (a : Act) (sid : Nat) (k1 : K) : Prop where
+  other : ∀ s, s ≠ sid → k1.ws s = k.ws s
+  none : k.ws sid = none → k1.ws sid = none
+  at_sid : ∀ w, k.ws sid = some w → ∃ w1, k1.ws sid = some w1 ∧ w.epoch ≤ w1.epoch ∧
+    (w1.field = w.field ∨ (a = .mine ∧ w.field = .ready ∧ w1.field = .mining) ∨
+      (a = .stop ∧ w.field = .mining ∧ w1.field = .ready)) ∧
+    (w1.filesExist = w.filesExist ∨ a = .delete)
+  chan : ∀ r, r ∈ k1.chan → r ∈ k.chan ∨
+    (r.sid = sid ∧ (a = .plot ∨ a = .mine) ∧ ∃ w, k.ws sid = some w ∧ r.epoch = w.epoch)
+  queue : ∀ r, r ∈ k1.queue → r ∈ k.queue
+  popped : k1.popped = k.popped ∨ ∃ b r, k.popped = some r ∧ r.sid = sid ∧
+    k1.popped = some { r with wouldMining := b } ∧ (b = true → a = .mine)
+  deleted : k1.deleted = k.deleted ∨ a = .delete
+
+theorem ActEff.refl (k : K) (a : Act) (sid : Nat) : ActEff k a sid k :=
+  ⟨fun _ _ => rfl, fun h => h, fun w hw => ⟨w, hw, Nat.le_refl _, Or.inl rfl, Or.inl rfl⟩,
+   fun _ hr => Or.inl hr, fun _ hr => hr, Or.inl rfl, Or.inl rfl⟩
+
+/-- a change at `sid` by `f` plus changes of the bookkeeping lists -/
+theorem ActEff.of_setWS {k k1 : K} {a : Act} {sid : Nat} (f : WS → WS) (hws : k1.ws = (setWS k sid f).ws)
+    (hf : ∀ w, k.ws sid = some w → w.epoch ≤ (f w).epoch ∧
+      ((f w).field = w.field ∨ (a = .mine ∧ w.field = .ready ∧ (f w).field = .mining) ∨
+        (a = .stop ∧ w.field = .mining ∧ (f w).field = .ready)) ∧
+      ((f w).filesExist = w.filesExist ∨ a = .delete))
+    (hchan : ∀ r, r ∈ k1.chan → r ∈ k.chan ∨
+      (r.sid = sid ∧ (a = .plot ∨ a = .mine) ∧ ∃ w, k.ws sid = some w ∧ r.epoch = w.epoch))
+    (hqueue : ∀ r, r ∈ k1.queue → r ∈ k.queue)
+    (hpopped : k1.popped = k.popped ∨ ∃ b r, k.popped = some r ∧ r.sid = sid ∧
+      k1.popped = some { r with wouldMining := b } ∧ (b = true → a = .mine))
+    (hdel : k1.deleted = k.deleted ∨ a = .delete) : ActEff k a sid k1 := by
+  refine ⟨?_, ?_, ?_, hchan, hqueue, hpopped, hdel⟩
+  · intro s hs; rw [hws]; simp [hs]
+  · intro h; rw [hws]; simp [h]
+  · intro w hw
+    exact ⟨f w, by rw [hws]; simp [hw], (hf w hw).1, (hf w hw).2.1, (hf w hw).2.2⟩
+
+theorem setWS_id_ws (k : K) (sid : Nat) : k.ws = (setWS k sid id).ws := by
+  funext s; simp [setWS]
+
+theorem field_of_inState {k : K} {s : Nat} {w : WS} {st : St} (h : Inv0 k) (hw : k.ws s = some w)
+    (hi : inState w st = true) : w.field = st := (idx_of_inState h hw hi).2.1
+
+theorem act_eff {k : K} (a : Act) (sid : Nat) (h : Inv k) : ActEff k a sid (act k a sid).1 := by
+  cases hfind : k.ws sid with
+  | none => simp only [act, find, hfind]; exact ActEff.refl k a sid
+  | some w =>
+    simp only [act, find, hfind]
+    split
+    · exact ActEff.refl k a sid
+    · have hbump : ∀ w0, k.ws sid = some w0 → w0.epoch ≤ w0.epoch + 1 := fun _ _ => Nat.le_succ _
+      cases a with
+      | plot =>
+        simp only
+        split
+        · unfold send; split
+          · refine ActEff.of_setWS id (setWS_id_ws k sid) (fun w _ => ⟨Nat.le_refl _, Or.inl rfl, Or.inl rfl⟩) ?_ (fun _ hr => hr) (Or.inl rfl) (Or.inl rfl)
+            intro r hr
+            simp only [List.mem_append, List.mem_singleton] at hr
+            rcases hr with hr | rfl
+            · exact Or.inl hr
+            · exact Or.inr ⟨rfl, Or.inl rfl, w, hfind, rfl⟩
+          · exact ActEff.refl k _ sid
+        · split
+          · rename_i hi
+            obtain ⟨r, hr, hrs⟩ := popped_of_plotting h hfind hi
+            simp only [hr]
+            split
+            · exact ActEff.refl k _ sid
+            · refine ActEff.of_setWS id (setWS_id_ws k sid) (fun w _ => ⟨Nat.le_refl _, Or.inl rfl, Or.inl rfl⟩) (fun _ hr => Or.inl hr) (fun _ hr => hr) ?_ (Or.inl rfl)
+              exact Or.inr ⟨false, r, hr, hrs, by simp [setPoppedWM, hr], by intro h; cases h⟩
+          · exact ActEff.refl k _ sid
+      | mine =>
+        simp only
+        split
+        · unfold send; split
+          · refine ActEff.of_setWS id (setWS_id_ws k sid) (fun w _ => ⟨Nat.le_refl _, Or.inl rfl, Or.inl rfl⟩) ?_ (fun _ hr => hr) (Or.inl rfl) (Or.inl rfl)
+            intro r hr
+            simp only [List.mem_append, List.mem_singleton] at hr
+            rcases hr with hr | rfl
+            · exact Or.inl hr
+            · exact Or.inr ⟨rfl, Or.inr rfl, w, hfind, rfl⟩
+          · exact ActEff.refl k _ sid
+        · split
+          · rename_i hi
+            obtain ⟨r, hr, hrs⟩ := popped_of_plotting h hfind hi
+            simp only [hr]
+            split
+            · exact ActEff.refl k _ sid
+            · refine ActEff.of_setWS id (setWS_id_ws k sid) (fun w _ => ⟨Nat.le_refl _, Or.inl rfl, Or.inl rfl⟩) (fun _ hr => Or.inl hr) (fun _ hr => hr) ?_ (Or.inl rfl)
+              exact Or.inr ⟨true, r, hr, hrs, by simp [setPoppedWM, hr], fun _ => rfl⟩
+          · split
+            · rename_i hi
+              refine ActEff.of_setWS _ rfl ?_ (fun _ hr => Or.inl hr) (fun _ hr => hr) (Or.inl rfl) (Or.inl rfl)
+              intro w0 hw0; rw [hfind] at hw0; cases hw0
+              exact ⟨Nat.le_refl _, Or.inr (Or.inl ⟨rfl, field_of_inState h.i0 hfind hi, rfl⟩), Or.inl rfl⟩
+            · exact ActEff.refl k _ sid
+      | stop =>
+        simp only
+        have hcw : (cancel k sid).ws = (setWS k sid (fun w => { w with epoch := w.epoch + 1 })).ws := rfl
+        have hcq : ∀ r, r ∈ (cancel k sid).queue → r ∈ k.queue := by
+          intro r hr; simp only [cancel, purge, List.mem_filter] at hr; exact hr.1
+        split
+        · rename_i hi
+          obtain ⟨r, hr, hrs⟩ := popped_of_plotting h hfind hi
+          simp only [cancel_popped, hr]
+          split
+          · exact ActEff.of_setWS _ hcw (fun w _ => ⟨Nat.le_succ _, Or.inl rfl, Or.inl rfl⟩) (fun _ hr => Or.inl hr) hcq (Or.inl rfl) (Or.inl rfl)
+          · refine ActEff.of_setWS _ hcw (fun w _ => ⟨Nat.le_succ _, Or.inl rfl, Or.inl rfl⟩) (fun _ hr => Or.inl hr) hcq ?_ (Or.inl rfl)
+            exact Or.inr ⟨false, r, hr, hrs, by simp [setPoppedWM, hr], by intro h; cases h⟩
+        · split
+          · rename_i hi
+            refine ActEff.of_setWS (fun w => move { w with epoch := w.epoch + 1 } .mining .ready) ?_ ?_ (fun _ hr => Or.inl hr) hcq (Or.inl rfl) (Or.inl rfl)
+            · funext s; simp only [setWS, cancel, purge]; split <;> simp [Option.map_map, Function.comp_def]
+            · intro w0 hw0; rw [hfind] at hw0; cases hw0
+              exact ⟨Nat.le_succ _, Or.inr (Or.inr ⟨rfl, field_of_inState h.i0 hfind hi, rfl⟩), Or.inl rfl⟩
+          · exact ActEff.of_setWS _ hcw (fun w _ => ⟨Nat.le_succ _, Or.inl rfl, Or.inl rfl⟩) (fun _ hr => Or.inl hr) hcq (Or.inl rfl) (Or.inl rfl)
+      | remove =>
+        simp only
+        have hcw : (cancel k sid).ws = (setWS k sid (fun w => { w with epoch := w.epoch + 1 })).ws := rfl
+        have hcq : ∀ r, r ∈ (cancel k sid).queue → r ∈ k.queue := by
+          intro r hr; simp only [cancel, purge, List.mem_filter] at hr; exact hr.1
+        split
+        · refine ActEff.of_setWS (fun w => { w with epoch := w.epoch + 1, inUse := false }) ?_ (fun w _ => ⟨Nat.le_succ _, Or.inl rfl, Or.inl rfl⟩) (fun _ hr => Or.inl hr) hcq (Or.inl rfl) (Or.inl rfl)
+          funext s; simp only [setWS, cancel, purge]; split <;> simp [Option.map_map, Function.comp_def]
+        · exact ActEff.of_setWS _ hcw (fun w _ => ⟨Nat.le_succ _, Or.inl rfl, Or.inl rfl⟩) (fun _ hr => Or.inl hr) hcq (Or.inl rfl) (Or.inl rfl)
+      | delete =>
+        simp only
+        have hcw : (cancel k sid).ws = (setWS k sid (fun w => { w with epoch := w.epoch + 1 })).ws := rfl
+        have hcq : ∀ r, r ∈ (cancel k sid).queue → r ∈ k.queue := by
+          intro r hr; simp only [cancel, purge, List.mem_filter] at hr; exact hr.1
+        split
+        · refine ActEff.of_setWS (fun w => { w with epoch := w.epoch + 1, idx := w.idx.filter (· != w.field), inAll := false, inUse := false, filesExist := false, done := false }) ?_ (fun w _ => ⟨Nat.le_succ _, Or.inl rfl, Or.inr rfl⟩) (fun _ hr => Or.inl hr) hcq (Or.inl rfl) (Or.inr rfl)
+          funext s; simp only [setWS, cancel, purge]; split <;> simp [Option.map_map, Function.comp_def]
+        · exact ActEff.of_setWS _ hcw (fun w _ => ⟨Nat.le_succ _, Or.inl rfl, Or.inl rfl⟩) (fun _ hr => Or.inl hr) hcq (Or.inl rfl) (Or.inl rfl)
+
+/-- the documented transition table (poc/engine/engine.go:171-212), per label and space:
+    the state of space `s` either stays, or moves as the label allows -/
+def Trans (k : K) (l : Label) (s : Nat) (w w' : WS) : Prop :=
+  w'.field = w.field ∨
+  match l with
+  | .api .mine sid => sid = s ∧ w.field = .ready ∧ w'.field = .mining
+  | .api .stop sid => sid = s ∧ w.field = .mining ∧ w'.field = .ready
+  | .step1 => ∃ r, k.popped = some r ∧ r.sid = s ∧ r.epoch = w.epoch ∧
+      ((w.field = .registered ∧ w'.field = .plotting) ∨
+       (r.wouldMining = true ∧ w.field = .ready ∧ w'.field = .mining))
+  | .step3 => k.pc = .finished s ∧ w.field = .plotting ∧
+      w'.field = (if !w.done then St.registered
+                  else if (k.popped.map (·.wouldMining)).getD false then St.mining else St.ready)
+  | _ => False
+
+structure MicroEff (k : K) (l : Label) (k' : K) : Prop where
+  wsNone : ∀ s, k.ws s = none → k'.ws s = none
+  wsSome : ∀ s w, k.ws s = some w → ∃ w', k'.ws s = some w' ∧ w.epoch ≤ w'.epoch ∧ Trans k l s w w' ∧
+    (w'.filesExist = w.filesExist ∨ l = .api .delete s)
+  req : ∀ r, (r ∈ k'.chan ∨ r ∈ k'.queue) → (r ∈ k.chan ∨ r ∈ k.queue) ∨
+    ((l = .api .plot r.sid ∨ l = .api .mine r.sid) ∧ ∃ w, k.ws r.sid = some w ∧ r.epoch = w.epoch)
+  pop : k'.pc = .popped → ∀ r, k'.popped = some r → r ∈ k.queue ∨
+    (k.pc = .popped ∧ ∃ r0, k.popped = some r0 ∧ r0.sid = r.sid ∧ r0.epoch = r.epoch)
+  wm : ∀ r', k'.popped = some r' → r'.wouldMining = true →
+    (∃ r, k.popped = some r ∧ r.sid = r'.sid ∧ r.wouldMining = true) ∨ l = .api .mine r'.sid ∨ k'.pc = .popped
+  deleted : k'.deleted = k.deleted ∨ ∃ sid, l = .api .delete sid
+
+/-- the spaces are untouched -/
+theorem MicroEff.of_ws_eq {k k' : K} {l : Label} (hws : k'.ws = k.ws)
+    (hreq : ∀ r, (r ∈ k'.chan ∨ r ∈ k'.queue) → (r ∈ k.chan ∨ r ∈ k.queue))
+    (hpop : k'.pc = .popped → ∀ r, k'.popped = some r → r ∈ k.queue ∨
+      (k.pc = .popped ∧ ∃ r0, k.popped = some r0 ∧ r0.sid = r.sid ∧ r0.epoch = r.epoch))
+    (hwm : ∀ r', k'.popped = some r' → r'.wouldMining = true →
+      (∃ r, k.popped = some r ∧ r.sid = r'.sid ∧ r.wouldMining = true) ∨ k'.pc = .popped)
+    (hdel : k'.deleted = k.deleted) : MicroEff k l k' := by
+  refine ⟨fun s h => by rw [hws]; exact h, fun s w hw => ⟨w, by rw [hws]; exact hw, Nat.le_refl _, Or.inl rfl, Or.inl rfl⟩,
+    fun r hr => Or.inl (hreq r hr), hpop, ?_, Or.inl hdel⟩
+  intro r' h1 h2
+  rcases hwm r' h1 h2 with h | h
+  · exact Or.inl h
+  · exact Or.inr (Or.inr h)
+
+theorem loopTop_ws (k : K) : (loopTop k).ws = k.ws := by
+  unfold loopTop; split
+  · rfl
+  · split <;> rfl
+theorem loopTop_chan (k : K) : (loopTop k).chan = k.chan := by
+  unfold loopTop; split
+  · rfl
+  · split <;> rfl
+theorem loopTop_deleted (k : K) : (loopTop k).deleted = k.deleted := by
+  unfold loopTop; split
+  · rfl
+  · split <;> rfl
+theorem loopTop_queue (k : K) : ∀ r, r ∈ (loopTop k).queue → r ∈ k.queue := by
+  unfold loopTop; split
+  · exact fun _ h => h
+  · split
+    · intro r h; simp [exitNow] at h
+    · exact fun _ h => h
+theorem loopTop_pc (k : K) : (loopTop k).pc ≠ .popped := by
+  unfold loopTop; split
+  · intro h; cases h
+  · split <;> (intro h; cases h)
+theorem loopTop_popped (k : K) : ∀ r, (loopTop k).popped = some r → k.popped = some r := by
+  unfold loopTop; split
+  · exact fun _ h => h
+  · split
+    · intro r h; simp [exitNow] at h
+    · exact fun _ h => h
+
+/-- after a change that leaves the spaces alone, the loop top -/
+theorem MicroEff.loopTop_of {k k1 : K} {l : Label} (h : MicroEff k l k1) (hp : k1.popped = k.popped) :
+    MicroEff k l (loopTop k1) := by
+  obtain ⟨h1, h2, h3, h4, h5, h6⟩ := h
+  refine ⟨?_, ?_, ?_, ?_, ?_, ?_⟩
+  · intro s hs; rw [loopTop_ws]; exact h1 s hs
+  · intro s w hw; rw [loopTop_ws]; exact h2 s w hw
+  · intro r hr; rw [loopTop_chan] at hr
+    exact h3 r (hr.elim Or.inl (fun hq => Or.inr (loopTop_queue k1 r hq)))
+  · intro hp; exact absurd hp (loopTop_pc k1)
+  · intro r' hr' hw
+    have := loopTop_popped k1 r' hr'
+    rw [hp] at this
+    exact Or.inl ⟨r', this, rfl, hw⟩
+  · rw [loopTop_deleted]; exact h6
+
+/-- `setWS` at one space by an `f` that keeps epoch and files -/
+theorem MicroEff.of_setWS {k k' : K} {l : Label} (sid : Nat) (f : WS → WS) (hws : k'.ws = (setWS k sid f).ws)
+    (hf : ∀ w, k.ws sid = some w → w.epoch ≤ (f w).epoch ∧ Trans k l sid w (f w) ∧ (f w).filesExist = w.filesExist)
+    (hreq : ∀ r, (r ∈ k'.chan ∨ r ∈ k'.queue) → (r ∈ k.chan ∨ r ∈ k.queue))
+    (hpc : k'.pc = .popped → k.pc = .popped) (hpop : k'.popped = k.popped) (hdel : k'.deleted = k.deleted) :
+    MicroEff k l k' := by
+  refine ⟨?_, ?_, fun r hr => Or.inl (hreq r hr), fun hp r hr => Or.inr ⟨hpc hp, r, hpop ▸ hr, rfl, rfl⟩, ?_, Or.inl hdel⟩
+  · intro s hs; rw [hws]
+    by_cases h : s = sid
+    · subst h; simp [hs]
+    · simp [h, hs]
+  · intro s w hw; rw [hws]
+    by_cases h : s = sid
+    · subst h
+      obtain ⟨a1, a2, a3⟩ := hf w hw
+      exact ⟨f w, by simp [hw], a1, a2, Or.inl a3⟩
+    · exact ⟨w, by simp [h, hw], Nat.le_refl _, Or.inl rfl, Or.inl rfl⟩
+  · intro r' h1 h2; rw [hpop] at h1; exact Or.inl ⟨r', h1, rfl, h2⟩
+
+theorem micro_eff {k k' : K} {l : Label} (h : Inv k) (hm : micro k l = some k') : MicroEff k l k' := by
+  unfold micro at hm
+  split at hm
+  · cases hm
+  cases l with
+  | api a sid =>
+    simp only [Option.some.injEq] at hm
+    have ha := act_eff a sid h
+    have hpc := (act_ok a sid h).pc
+    -- the two shapes of k' share spaces, requests, popped item and deleted list with `(act k a sid).1`
+    have key : ∀ k2 : K, k2.ws = (act k a sid).1.ws → k2.chan = (act k a sid).1.chan → k2.queue = (act k a sid).1.queue →
+        k2.popped = (act k a sid).1.popped → k2.deleted = (act k a sid).1.deleted →
+        (k2.pc = .popped → k.pc = .popped) → MicroEff k (.api a sid) k2 := by
+      intro k2 e1 e2 e3 e4 e5 e6
+      refine ⟨?_, ?_, ?_, ?_, ?_, ?_⟩
+      · intro s hs; rw [e1]
+        by_cases hh : s = sid
+        · subst hh; exact ha.none hs
+        · rw [ha.other s hh]; exact hs
+      · intro s w hw; rw [e1]
+        by_cases hh : s = sid
+        · subst hh
+          obtain ⟨w1, b1, b2, b3, b4⟩ := ha.at_sid w hw
+          refine ⟨w1, b1, b2, ?_, ?_⟩
+          · rcases b3 with b3 | ⟨rfl, b3⟩ | ⟨rfl, b3⟩
+            · exact Or.inl b3
+            · exact Or.inr ⟨rfl, b3⟩
+            · exact Or.inr ⟨rfl, b3⟩
+          · rcases b4 with b4 | rfl
+            · exact Or.inl b4
+            · exact Or.inr rfl
+        · exact ⟨w, by rw [ha.other s hh]; exact hw, Nat.le_refl _, Or.inl rfl, Or.inl rfl⟩
+      · intro r hr; rw [e2, e3] at hr
+        rcases hr with hr | hr
+        · rcases ha.chan r hr with c | ⟨c1, c2, c3⟩
+          · exact Or.inl (Or.inl c)
+          · subst c1
+            exact Or.inr ⟨c2.elim (fun e => Or.inl (e ▸ rfl)) (fun e => Or.inr (e ▸ rfl)), c3⟩
+        · exact Or.inl (Or.inr (ha.queue r hr))
+      · intro hp r hr
+        refine Or.inr ⟨e6 hp, ?_⟩
+        rw [e4] at hr
+        rcases ha.popped with c | ⟨b, r0, c1, c2, c3, _⟩
+        · exact ⟨r, c ▸ hr, rfl, rfl⟩
+        · rw [c3] at hr; cases hr; exact ⟨r0, c1, rfl, rfl⟩
+      · intro r' hr' hw
+        rw [e4] at hr'
+        rcases ha.popped with c | ⟨b, r0, c1, c2, c3, c4⟩
+        · exact Or.inl ⟨r', c ▸ hr', rfl, hw⟩
+        · rw [c3] at hr'; cases hr'
+          have : a = .mine := c4 hw
+          subst this
+          exact Or.inr (Or.inl (by rw [← c2]))
+      · rw [e5]
+        rcases ha.deleted with c | rfl
+        · exact Or.inl c
+        · exact Or.inr ⟨sid, rfl⟩
+    split at hm
+    · subst hm
+      exact key _ rfl rfl rfl rfl rfl (by intro hp; cases hp)
+    · subst hm
+      exact key _ rfl rfl rfl rfl rfl (by intro hp; rw [← hpc]; exact hp)
+  | recv =>
+    dsimp only at hm
+    split at hm
+    · cases hm
+      refine MicroEff.loopTop_of (MicroEff.of_ws_eq rfl ?_ (by intro hp; rename_i hc; simp only [Bool.and_eq_true, beq_iff_eq] at hc; rw [hc.1.1] at hp; cases hp) (fun r' h1 h2 => Or.inl ⟨r', h1, rfl, h2⟩) rfl) rfl
+      intro r hr
+      rcases hr with hr | hr
+      · simp at hr
+      · rcases mem_foldl_enqueue hr with hr | hr
+        · exact Or.inr hr
+        · exact Or.inl hr
+    · cases hm
+  | pop wm ep =>
+    dsimp only at hm
+    split at hm
+    · rename_i hc
+      simp only [beq_iff_eq] at hc
+      split at hm
+      · cases hm
+        exact MicroEff.loopTop_of (MicroEff.of_ws_eq rfl (fun _ hr => hr) (by intro hp; rw [hc] at hp; cases hp) (fun r' h1 h2 => Or.inl ⟨r', h1, rfl, h2⟩) rfl) rfl
+      · rename_i top rest hq
+        split at hm
+        · rename_i hmem
+          cases hm
+          have hmem' : (⟨top.sid, wm, ep⟩ : Req) ∈ k.queue := by simpa using hmem
+          refine MicroEff.of_ws_eq rfl ?_ ?_ (fun _ _ _ => Or.inr rfl) rfl
+          · intro r hr
+            rcases hr with hr | hr
+            · exact Or.inl hr
+            · exact Or.inr (List.mem_of_mem_erase hr)
+          · intro _ r hr
+            simp only [Option.some.injEq] at hr; subst hr
+            exact Or.inl hmem'
+        · cases hm
+    · cases hm
+  | step1 =>
+    dsimp only at hm
+    split at hm
+    · rename_i hc
+      simp only [beq_iff_eq] at hc
+      have hsome := h.pl.pop hc
+      have hsame : MicroEff k .step1 (loopTop k) :=
+        MicroEff.loopTop_of (MicroEff.of_ws_eq rfl (fun _ hr => hr)
+          (fun _ r hr => Or.inr ⟨hc, r, hr, rfl, rfl⟩) (fun r' h1 h2 => Or.inl ⟨r', h1, rfl, h2⟩) rfl) rfl
+      cases hp : k.popped with
+      | none => simp [hp] at hsome
+      | some r =>
+        simp only [hp, find] at hm
+        cases hw : k.ws r.sid with
+        | none => simp only [hw] at hm; cases hm; exact hsame
+        | some w =>
+          simp only [hw] at hm
+          split at hm
+          · cases hm; exact hsame
+          · rename_i hep
+            have hep' : r.epoch = w.epoch := by simpa using hep
+            split at hm
+            · rename_i hi
+              cases hm
+              refine MicroEff.of_setWS r.sid _ rfl ?_ (fun _ hr => hr) ?_ rfl rfl
+              · intro w0 hw0; rw [hw] at hw0; cases hw0
+                exact ⟨Nat.le_refl _, Or.inr ⟨r, hp, rfl, hep', Or.inl ⟨field_of_inState h.i0 hw hi, rfl⟩⟩, rfl⟩
+              · simp only; split <;> (intro hh; cases hh)
+            · split at hm
+              · rename_i hi
+                simp only [Bool.and_eq_true] at hi
+                cases hm
+                refine MicroEff.loopTop_of (MicroEff.of_setWS r.sid _ rfl ?_ (fun _ hr => hr) ?_ rfl rfl) rfl
+                · intro w0 hw0; rw [hw] at hw0; cases hw0
+                  exact ⟨Nat.le_refl _, Or.inr ⟨r, hp, rfl, hep', Or.inr ⟨hi.2, field_of_inState h.i0 hw hi.1, rfl⟩⟩, rfl⟩
+                · exact fun _ => hc
+              · cases hm; exact hsame
+    · cases hm
+  | plotEnds d =>
+    dsimp only at hm
+    split at hm
+    · rename_i sid hc
+      cases hm
+      cases d with
+      | false =>
+        exact MicroEff.of_ws_eq rfl (fun _ hr => hr) (by intro hp; cases hp) (fun r' h1 h2 => Or.inl ⟨r', h1, rfl, h2⟩) rfl
+      | true =>
+        simp only [if_true]
+        refine MicroEff.of_setWS sid _ rfl ?_ (fun _ hr => hr) (by intro hp; cases hp) rfl rfl
+        intro w0 _
+        exact ⟨Nat.le_refl _, Or.inl rfl, rfl⟩
+    · cases hm
+  | step3 =>
+    dsimp only at hm
+    split at hm
+    · rename_i sid hc
+      cases hm
+      obtain ⟨w, hw, hf⟩ := h.pl.pcw sid (by rw [hc]; rfl)
+      simp only [step3, find, hw]
+      refine MicroEff.loopTop_of (MicroEff.of_setWS sid _ rfl ?_ (fun _ hr => hr) (fun hp => hp) rfl rfl) rfl
+      intro w0 hw0; rw [hw] at hw0; cases hw0
+      exact ⟨Nat.le_refl _, Or.inr ⟨hc, hf, rfl⟩, rfl⟩
+    · cases hm
+  | start =>
+    dsimp only at hm
+    split at hm
+    · rename_i hc
+      simp only [beq_iff_eq] at hc
+      cases hm
+      exact MicroEff.loopTop_of (MicroEff.of_ws_eq rfl (fun _ hr => hr) (by intro hp; rw [hc] at hp; cases hp) (fun r' h1 h2 => Or.inl ⟨r', h1, rfl, h2⟩) rfl) rfl
+    · cases hm
+  | quit =>
+    dsimp only at hm
+    split at hm
+    · split at hm
+      · cases hm
+        exact MicroEff.of_ws_eq rfl (fun _ hr => hr) (by intro hp; cases hp) (fun r' h1 h2 => Or.inl ⟨r', h1, rfl, h2⟩) rfl
+      · cases hm
+        exact MicroEff.of_ws_eq rfl (fun _ hr => hr) (fun hp r hr => Or.inr ⟨hp, r, hr, rfl, rfl⟩) (fun r' h1 h2 => Or.inl ⟨r', h1, rfl, h2⟩) rfl
+    · cases hm
+  | exit d =>
+    dsimp only at hm
+    split at hm
+    · cases hm
+      refine MicroEff.of_ws_eq rfl ?_ (by intro hp; cases hp) (by intro r' h1; simp [exitNow] at h1) rfl
+      intro r hr
+      simp only [exitNow] at hr
+      rcases hr with hr | hr
+      · split at hr
+        · simp at hr
+        · exact Or.inl hr
+      · simp at hr
+    · cases hm
+
+/-! ### a stopped space stays quiet -/
+
+/-- after a stop, until the space is asked to plot or mine again: every request for it that still
+    waits anywhere is void, it is not mining, and if it is (still) plotting the plot will not go on to mining -/
+structure Quiet (k : K) (sid : Nat) : Prop where
+  stale : ∀ r, (r ∈ k.chan ∨ r ∈ k.queue) → r.sid = sid → ∀ w, k.ws sid = some w → r.epoch < w.epoch
+  pop : k.pc = .popped → ∀ r, k.popped = some r → r.sid = sid → ∀ w, k.ws sid = some w → r.epoch < w.epoch
+  nm : ∀ w, k.ws sid = some w → w.field ≠ .mining
+  wm : ∀ w, k.ws sid = some w → w.field = .plotting → ∀ r, k.popped = some r → r.wouldMining = false
+
+theorem quiet_step {k k' : K} {l : Label} {sid : Nat} (h : Inv k) (hq : Quiet k sid) (hm : micro k l = some k')
+    (h1 : l ≠ .api .plot sid) (h2 : l ≠ .api .mine sid) :
+    Quiet k' sid ∧ ∀ w w', k.ws sid = some w → k'.ws sid = some w' →
+      (w'.field = .plotting → w.field = .plotting) := by
+  have he := micro_eff h hm
+  have h' := micro_inv h hm
+  -- the space's state does not move into plotting or mining
+  have hfield : ∀ w w', k.ws sid = some w → k'.ws sid = some w' →
+      (w'.field = .plotting → w.field = .plotting) ∧ w'.field ≠ .mining := by
+    intro w w' hw hw'
+    obtain ⟨w'', e1, e2, e3, _⟩ := he.wsSome sid w hw
+    rw [hw'] at e1; cases e1
+    have hnm := hq.nm w hw
+    rcases e3 with e3 | e3
+    · rw [e3]; exact ⟨fun x => x, hnm⟩
+    · cases l with
+      | api a s0 =>
+        cases a with
+        | mine => obtain ⟨rfl, _, _⟩ := e3; exact absurd rfl h2
+        | stop => obtain ⟨_, _, e⟩ := e3; rw [e]; exact ⟨(by intro x; cases x), (by intro x; cases x)⟩
+        | plot => exact e3.elim
+        | remove => exact e3.elim
+        | delete => exact e3.elim
+      | step1 =>
+        obtain ⟨r, r1, r2, r3, _⟩ := e3
+        have hpc : k.pc = .popped := by
+          unfold micro at hm; split at hm
+          · cases hm
+          · dsimp only at hm; split at hm
+            · rename_i hc; simpa using hc
+            · cases hm
+        have := hq.pop hpc r r1 r2 w hw
+        omega
+      | step3 =>
+        obtain ⟨s1, s2, s3⟩ := e3
+        obtain ⟨_, _, r, r1, _⟩ := h.pl.plot sid w hw s2
+        have hwm := hq.wm w hw s2 r r1
+        rw [s3]
+        simp only [r1, Option.map_some, Option.getD_some, hwm]
+        split <;> exact ⟨(by intro x; cases x), (by intro x; cases x)⟩
+      | recv => exact e3.elim
+      | pop _ _ => exact e3.elim
+      | plotEnds _ => exact e3.elim
+      | start => exact e3.elim
+      | quit => exact e3.elim
+      | exit _ => exact e3.elim
+  refine ⟨⟨?_, ?_, ?_, ?_⟩, fun w w' hw hw' => (hfield w w' hw hw').1⟩
+  · intro r hr hs w' hw'
+    cases hw : k.ws sid with
+    | none => have := he.wsNone sid hw; rw [hw'] at this; cases this
+    | some w =>
+      obtain ⟨w'', e1, e2, _, _⟩ := he.wsSome sid w hw
+      rw [hw'] at e1; cases e1
+      rcases he.req r hr with c | ⟨c, _⟩
+      · exact Nat.lt_of_lt_of_le (hq.stale r c hs w hw) e2
+      · rw [hs] at c; rcases c with c | c
+        · exact absurd c h1
+        · exact absurd c h2
+  · intro hp r hr hs w' hw'
+    cases hw : k.ws sid with
+    | none => have := he.wsNone sid hw; rw [hw'] at this; cases this
+    | some w =>
+      obtain ⟨w'', e1, e2, _, _⟩ := he.wsSome sid w hw
+      rw [hw'] at e1; cases e1
+      rcases he.pop hp r hr with c | ⟨c1, r0, c2, c3, c4⟩
+      · exact Nat.lt_of_lt_of_le (hq.stale r (Or.inr c) hs w hw) e2
+      · rw [← c4]
+        exact Nat.lt_of_lt_of_le (hq.pop c1 r0 c2 (c3.trans hs) w hw) e2
+  · intro w' hw'
+    cases hw : k.ws sid with
+    | none => have := he.wsNone sid hw; rw [hw'] at this; cases this
+    | some w => exact (hfield w w' hw hw').2
+  · intro w' hw' hf r' hr'
+    cases hw : k.ws sid with
+    | none => have := he.wsNone sid hw; rw [hw'] at this; cases this
+    | some w =>
+      have hf0 := (hfield w w' hw hw').1 hf
+      cases hb : r'.wouldMining with
+      | false => rfl
+      | true =>
+        exfalso
+        obtain ⟨_, _, rr, rr1, rr2⟩ := h'.pl.plot sid w' hw' hf
+        rw [hr'] at rr1; cases rr1
+        rcases he.wm r' hr' hb with ⟨r, c1, c2, c3⟩ | c | c
+        · have := hq.wm w hw hf0 r c1; rw [c3] at this; cases this
+        · rw [rr2] at c; exact h2 c
+        · have := (h'.pl.plot sid w' hw' hf).2.1
+          rw [c] at this; cases this
+
+theorem quiet_run {k k' : K} {sid : Nat} (ls : List Label) (h : Inv k) (hq : Quiet k sid)
+    (hno : ∀ l, l ∈ ls → l ≠ .api .plot sid ∧ l ≠ .api .mine sid) (hr : run k ls = some k') :
+    Quiet k' sid ∧ ∀ w w', k.ws sid = some w → k'.ws sid = some w' →
+      (w'.field = .plotting → w.field = .plotting) := by
+  induction ls generalizing k with
+  | nil =>
+    simp [run] at hr; subst hr
+    exact ⟨hq, fun w w' hw hw' hf => by rw [hw] at hw'; cases hw'; exact hf⟩
+  | cons l ls ih =>
+    simp only [run] at hr
+    cases hm : micro k l with
+    | none => simp [hm] at hr
+    | some k1 =>
+      simp [hm] at hr
+      obtain ⟨q1, f1⟩ := quiet_step h hq hm (hno l (by simp)).1 (hno l (by simp)).2
+      obtain ⟨q2, f2⟩ := ih (micro_inv h hm) q1 (fun l' hl' => hno l' (by simp [hl'])) hr
+      refine ⟨q2, fun w w' hw hw' hf => ?_⟩
+      have he := micro_eff h hm
+      obtain ⟨w1, e1, _⟩ := he.wsSome sid w hw
+      exact f1 w w1 hw e1 (f2 w1 w' e1 hw' hf)
+
+theorem quiet_after_stop {k k1 : K} {sid : Nat} (h : Inv k)
+    (hok : (act k .stop sid).2 = .ok ()) (hm : micro k (.api .stop sid) = some k1) : Quiet k1 sid := by
+  cases hw : k.ws sid with
+  | none => simp [act, find, hw] at hok
+  | some w =>
+    have hpc : k1.pc = .popped → k.pc = .popped := by
+      unfold micro at hm; split at hm
+      · cases hm
+      · simp only [Option.some.injEq] at hm
+        split at hm
+        · subst hm; intro hp; cases hp
+        · subst hm; intro hp; rw [← (act_ok .stop sid h).pc]; exact hp
+    have hk1 : k1.ws = (act k .stop sid).1.ws ∧ k1.chan = (act k .stop sid).1.chan ∧
+        k1.queue = (act k .stop sid).1.queue ∧ k1.popped = (act k .stop sid).1.popped := by
+      unfold micro at hm; split at hm
+      · cases hm
+      · simp only [Option.some.injEq] at hm
+        split at hm <;> (subst hm; exact ⟨rfl, rfl, rfl, rfl⟩)
+    obtain ⟨e1, e2, e3, e4⟩ := hk1
+    have hcq : ∀ r, r ∈ (cancel k sid).queue → r ∈ k.queue := by
+      intro r hr; simp only [cancel, purge, List.mem_filter] at hr; exact hr.1
+    have hold : ∀ r, (r ∈ k.chan ∨ r ∈ k.queue ∨ k.popped = some r) → r.sid = sid → r.epoch < w.epoch + 1 := by
+      intro r hr hs
+      have := h.i0.ep r hr w (hs ▸ hw)
+      omega
+    -- shape of the result, branch by branch
+    have key : ∃ w1, k1.ws sid = some w1 ∧ w1.epoch = w.epoch + 1 ∧ w1.field ≠ .mining ∧
+        (∀ r, r ∈ k1.chan → r ∈ k.chan) ∧ (∀ r, r ∈ k1.queue → r ∈ k.queue) ∧
+        (∀ r, k1.popped = some r → ∃ r0, k.popped = some r0 ∧ r0.sid = r.sid ∧ r0.epoch = r.epoch) ∧
+        (w1.field = .plotting → ∀ r, k1.popped = some r → r.wouldMining = false) := by
+      rw [e1, e2, e3, e4]
+      have huse : (!(w.inAll && w.inUse)) = false := by
+        cases hu : (!(w.inAll && w.inUse)) with
+        | false => rfl
+        | true => simp [act, find, hw, hu] at hok
+      have hall : w.inAll = true := by
+        cases ha : w.inAll <;> simp [ha] at huse ⊢
+      have hc := cancel_ws_sid (sid := sid) hw
+      simp only [act, find, hw, huse, Bool.false_eq_true, if_false]
+      split
+      · rename_i hi
+        obtain ⟨r, hr, hrs⟩ := popped_of_plotting h hw hi
+        have hfp := field_of_inState h.i0 hw hi
+        simp only [cancel_popped, hr]
+        split
+        · rename_i hne; simp [hrs] at hne
+        · refine ⟨_, hc, rfl, by simp [hfp], fun _ x => x, hcq, ?_, ?_⟩
+          · intro r' hr'; simp [setPoppedWM, hr] at hr'; subst hr'; exact ⟨r, rfl, rfl, rfl⟩
+          · intro _ r' hr'; simp [setPoppedWM, hr] at hr'; subst hr'; rfl
+      · rename_i hnp
+        split
+        · refine ⟨move { w with epoch := w.epoch + 1 } .mining .ready, by simp [hc], rfl, by simp [move],
+            fun _ x => x, hcq, fun r' hr' => ⟨r', hr', rfl, rfl⟩, ?_⟩
+          intro hf; simp [move] at hf
+        · rename_i hnm
+          have hidx := (h.i0.base sid w hw).idx
+          simp only [hall, if_true] at hidx
+          refine ⟨_, hc, rfl, ?_, fun _ x => x, hcq, fun r' hr' => ⟨r', hr', rfl, rfl⟩, ?_⟩
+          · intro hf; apply hnm; simp [inState, hidx]; exact hf.symm
+          · intro hf; exfalso; apply hnp; simp [inState, hidx]; exact hf.symm
+    obtain ⟨w1, a1, a2, a3, a4, a5, a6, a7⟩ := key
+    refine ⟨?_, ?_, ?_, ?_⟩
+    · intro r hr hs w' hw'; rw [a1] at hw'; cases hw'
+      rw [a2]
+      exact hold r (hr.elim (fun x => Or.inl (a4 r x)) (fun x => Or.inr (Or.inl (a5 r x)))) hs
+    · intro hp r hr hs w' hw'; rw [a1] at hw'; cases hw'
+      obtain ⟨r0, b1, b2, b3⟩ := a6 r hr
+      rw [a2, ← b3]
+      exact hold r0 (Or.inr (Or.inr b1)) (b2.trans hs)
+    · intro w' hw'; rw [a1] at hw'; cases hw'; exact a3
+    · intro w' hw' hf; rw [a1] at hw'; cases hw'; exact a7 hf
+
+/-! ### `quit` and the plotter goroutine -/
+
+theorem loopTop_qinv (k : K) : (loopTop k).quitting = true → (loopTop k).pc ≠ .exited := by
+  unfold loopTop
+  split
+  · intro _ h; cases h
+  · split
+    · intro h; simp [exitNow] at h
+    · intro _ h; cases h
+
+/-- `quit` is closed only while a plotter goroutine exists -/
+theorem micro_qinv {k k' : K} {l : Label} (h : Inv k) (hq : k.quitting = true → k.pc ≠ .exited)
+    (hm : micro k l = some k') : k'.quitting = true → k'.pc ≠ .exited := by
+  unfold micro at hm
+  split at hm
+  · cases hm
+  cases l with
+  | api a sid =>
+    simp only [Option.some.injEq] at hm
+    have ha := act_ok a sid h
+    split at hm
+    · subst hm; intro _ hh; cases hh
+    · subst hm; rw [ha.qt, ha.pc]; exact hq
+  | recv => dsimp only at hm; split at hm <;> cases hm; exact loopTop_qinv _
+  | pop wm ep =>
+    dsimp only at hm
+    split at hm
+    · split at hm
+      · cases hm; exact loopTop_qinv _
+      · split at hm
+        · cases hm; intro _ hh; cases hh
+        · cases hm
+    · cases hm
+  | step1 =>
+    dsimp only at hm
+    split at hm
+    · rename_i hc
+      simp only [beq_iff_eq] at hc
+      split at hm
+      · cases hm; intro _ hh; rw [hc] at hh; cases hh
+      · split at hm
+        · cases hm; exact loopTop_qinv _
+        · split at hm
+          · cases hm; exact loopTop_qinv _
+          · split at hm
+            · cases hm; intro _ hh; simp only at hh; split at hh <;> cases hh
+            · split at hm <;> (cases hm; exact loopTop_qinv _)
+    · cases hm
+  | plotEnds d => dsimp only at hm; split at hm <;> cases hm; intro _ hh; cases hh
+  | step3 => dsimp only at hm; split at hm <;> cases hm; exact loopTop_qinv _
+  | start => dsimp only at hm; split at hm <;> cases hm; exact loopTop_qinv _
+  | quit =>
+    dsimp only at hm
+    split at hm
+    · rename_i hc
+      simp only [Bool.and_eq_true, bne_iff_ne, ne_eq] at hc
+      split at hm
+      · cases hm; intro _ hh; cases hh
+      · cases hm; intro _; exact hc.1
+    · cases hm
+  | exit d => dsimp only at hm; split at hm <;> cases hm; intro hh; simp [exitNow] at hh
+
+theorem reachable_qinv {n : Nat} {k : K} (ls : List Label) (hr : run (initK n) ls = some k) :
+    k.quitting = true → k.pc ≠ .exited := by
+  suffices ∀ k0, Inv k0 → (k0.quitting = true → k0.pc ≠ .exited) → run k0 ls = some k →
+      (k.quitting = true → k.pc ≠ .exited) from
+    this (initK n) (inv_init n) (by intro h; simp [initK] at h) hr
+  clear hr
+  intro k0 hi hq hr
+  induction ls generalizing k0 with
+  | nil => simp [run] at hr; subst hr; exact hq
+  | cons l ls ih =>
+    simp only [run] at hr
+    cases hm : micro k0 l with
+    | none => simp [hm] at hr
+    | some k1 => simp [hm] at hr; exact ih k1 (micro_inv hi hm) (micro_qinv hi hq hm) hr
+
 end MassVerif.Keeper
